@@ -188,4 +188,3 @@ var Bip32Chains = [][]struct {
 		{"xpub6FnCn6nSzZAw5Tw7cgR9bi15UV96gLZhjDstkXXxvCLsUXBGXPdSnLFbdpq8p9HmGsApME5hQTZ3emM2rnY5agb9rXpVGyy3bdW6EEgAtqt", 2, false},
 	},
 }
-
